@@ -8,7 +8,10 @@ CFG = {
                           "RpmVerif.C17.splittableB_iff", "RpmVerif.C17.add_data_err_no_file_name", "RpmVerif.C17.hasFileNameB_iff",
                           "RpmVerif.C17.compressor_total", "RpmVerif.C17.compressor_err_iff", "RpmVerif.C17.caps_setter_total",
                           "RpmVerif.C17.timestamp_setter_panics_iff", "RpmVerif.C17.timestamp_setter_ok", "RpmVerif.C17.fileSetter_total",
-                          "RpmVerif.C17.build_args_total_partial", "RpmVerif.C17.build_args_can_panic"],
+                          "RpmVerif.C17.build_args_total_partial", "RpmVerif.C17.build_args_can_panic",
+                          "RpmVerif.C17.with_file_total", "RpmVerif.C17.with_file_mtime_err_iff", "RpmVerif.C17.with_file_outcomes",
+                          "RpmVerif.C17.setters_total", "RpmVerif.C17.build_calls_total",
+                          "RpmVerif.C17.default_level_in_range", "RpmVerif.C17.default_of_every_type", "RpmVerif.C17.default_is_some_variant"],
     "trivial_branches": ["bad-start", "ts:unrepresentable", "meta"],
     "rule": "ALL destinations over the alphabet {'/', '.', 'a'} up to length 8 (quick, 9 841 strings) / 11 (thorough, 265 720), all token strings over "
             "{'/', '.', '..', 'a', 'b.c'} up to 5 / 7 tokens, the former panic witnesses, long (5 000-byte names, 2 000 levels, 3 000 slashes), multi-byte, "
@@ -19,7 +22,16 @@ CFG = {
             "child (`level`: ok | err | panic | abort | corrupt). source_date and add_changelog_entry with u32 / SystemTime / DateTime<Utc> / "
             "DateTime<FixedOffset> at −1 ns, 0, 2^31, 2^32−1(+0.999999999), 2^32, chrono MIN/MAX, i64 extremes, ±40 / ±2000 s windows and seeded instants "
             "(`tsset`). Capability text: all strings of up to 3 / 4 tokens over {cap_chown, cap_kill, all, cap_bogus, ',', '=', '+', '-', e, i, p, x, ' '} plus "
-            "17 hand-picked ones (`capsset`, setter vs FileCaps::from_str). 20 metadata strings through every string setter (`meta`). A case is trivial when "
+            "17 hand-picked ones (`capsset`, setter vs FileCaps::from_str). 20 metadata strings through every string setter (`meta`). "
+            "`wfile`: one FileOptions::new(dest).<setters> chain + with_file on a source the harness prepares — a regular file, a symbolic link to one, a FIFO (fed by "
+            "a thread), a directory, a missing path; 14 permission words incl. set-uid / set-gid / sticky / 0 / 0o7777 (and random 12-bit words); 16 modification times "
+            "from −2^31 s over −1 ns, 0, 2^31, 2^32−1(+0.999999999 s), 2^32 to 1.5·10^10 s (set with futimens, read back before use); 49 option chains (every is_* setter, "
+            "repeated / combined setters, owner, link target, valid and unknown capability text, verify flags, mode(i32) at −2^31, −32769, −32768, −1, 0, 65535, 65536, "
+            "0o271664, 2^31−1, FIFO / char-device words, mode(u16), FileMode::regular/dir/symbolic_link with oversized permissions, the mode() call before and after "
+            "other setters and twice); good, unsplittable and relative destinations; 300 / 6 000 seeded combinations. Observed: st_mode of the source, error class "
+            "(io | TimestampConv | InvalidDestinationPath | InvalidCapabilities) or the read-back mode word, cpio c_mode, mtime, flags, owner, group, link, caps, verify "
+            "flags, size. `leveld`: compression(CompressionType::T) for every T and no compression() call at all (also on the build without bzip2), observing "
+            "PAYLOADCOMPRESSOR / PAYLOADFLAGS. A case is trivial when "
             "the destination does not start with '/' or './', when a timestamp value cannot be constructed, or a `meta` case; distinct = distinct request lines",
     "exhaustive": True,
     "shards": {"quick": 4, "thorough": 16},
@@ -27,10 +39,12 @@ CFG = {
                      "function with the real std on every enumerated string; not proved against the std source",
                      "the external encoders (flate2, zstd, liblzma, bzip2) do not panic inside the level ranges the source checks (hypothesis "
                      "EncodersDoNotPanic; exercised by the level sweep in child processes)",
-                     "capability validation is an abstract parameter here (property C19 models it); the setter is compared with FileCaps::from_str at run time"],
+                     "capability validation is an abstract parameter here (property C19 models it); the setter is compared with FileCaps::from_str at run time",
+                     "the operating system's view of the source path (open / read outcome, st_mode, mtime) is the argument `Source` of the with_file model; fstat on the "
+                     "open descriptor is taken not to fail; the S_IF* constants are the OS's (checked against the st_mode the harness reads back on every wfile case)"],
     "assumptions": COMMON_ASSUME + [
         "a destination is a Rust String, i.e. valid UTF-8, so to_string_lossy is the identity on its '/'-separated pieces",
-        "the source file given to with_file exists and is readable (an I/O error is an Err, not modelled)",
+        "for the destination / layout / level ops the source file given to with_file exists and is readable; `wfile` lifts this (missing path, directory, FIFO)",
         "build() steps that do not depend on the enumerated arguments (Timestamp::now(), the 4 GiB size expect) are outside this property's quantifier",
     ],
     "level_text": "Theorems for ALL destination byte strings of any length: add_data never panics (add_data_total), it accepts exactly the destinations that "
@@ -39,11 +53,17 @@ CFG = {
                   "with a non-empty '/'-free base name, a dir that starts and ends with '/', cpio path './…', the same name components as the destination, "
                   "and reads back as dir ++ base (add_data_ok_shape). Compressor construction never panics and errs exactly outside the ranges scraped from "
                   "compressor.rs (compressor_total, compressor_err_iff; encoders assumed panic-free inside those ranges). The caps setter reports exactly the "
-                  "validator's verdict (caps_setter_total). PARTIAL: build_args_total_partial needs the hypothesis that no out-of-range instant reaches "
+                  "validator's verdict (caps_setter_total). with_file (model Model/WithFile.lean: source = open/read outcome, content, st_mode word, mtime instant; options = "
+                  "FileOptions::new defaults scraped from types.rs + any chain of setters) never panics for ANY st_mode word, instant, options and destination "
+                  "(with_file_total, build_calls_total for whole call sequences); it returns Err(TimestampConv) exactly for a readable source whose mtime is before 1970 "
+                  "or from 2106-02-07T06:28:16Z on — tested before the destination — and Ok exactly for readable + in-range + splittable (with_file_mtime_err_iff, "
+                  "with_file_outcomes). Every default level of From<CompressionType> passes the range check of its variant, every type has an arm that keeps the type, "
+                  "and CompressionWithLevel::default() is, for every combination of cargo features, a variant with an accepted level whose codec is compiled in "
+                  "(default_level_in_range, default_of_every_type, default_is_some_variant; tables scraped from compressor.rs / Cargo.toml). PARTIAL: build_args_total_partial needs the hypothesis that no out-of-range instant reaches "
                   "source_date / add_changelog_entry; those setters unwrap the conversion and panic exactly outside 0 ≤ t < 2^32 "
                   "(timestamp_setter_panics_iff, build_args_can_panic) — known finding class timestamp-setter-panic. The model is tied to the code by the "
                   "exhaustive destination enumeration, the per-function std::path comparison, the level sweep in child processes and boundary timestamps.",
     "level_note": "Trusted: Lean kernel; the byte-level model of Unix std::path (validated against the real functions on every enumerated string); the encoders' "
-                  "behaviour inside their ranges; the generated level table (tools/gen/compression_levels.py, degrades loudly). Known finding: timestamp setters panic "
+                  "behaviour inside their ranges; the generated level / default tables (tools/gen/compression_levels.py) and FileOptions table (tools/gen/file_options.py), both degrade loudly. Known finding: timestamp setters panic "
                   "outside 1970..2106.",
 }
